@@ -12,6 +12,8 @@ def build(chk, d, flags=V.RELEASE, tag='rel'):
 def run(chk, h, jobs, prefixes, tag='rel', known_suffix=None, timeout=600, crash_key=None):
     """jobs: list of (seed, ops, row, flags); prefixes: FAIL-key prefixes that belong to this property (others are reported by their own check).
     A crash of the allocator is a violation of every property that uses this oracle."""
+    if chk.tier != 'thorough':
+        timeout = min(timeout, 300)      # a quick run of the oracle takes 5 - 60 s; a hang is reported as a crash (exit 124) after this
     cmds = [([h, str(sd), str(ops), str(row), str(fl)], None, timeout) for sd, ops, row, fl in jobs]
     outs = V.pmap(cmds)
     n = 0
